@@ -54,15 +54,15 @@ PROPS = {
     "C16": P("asan", "exploration", (60000, 25), (2500000, 420),
              "documents with distinct keys over an alphabet containing / ~ 0 1 - and the empty key; patches of 1-8 operations are assembled step by step against the evolving reference state (valid pointers incl. ~0 ~1 and '-', deliberate failures: missing member, index out of range, failed test, missing op/path/value/from, move into own child) and applied with cJSONUtils_ApplyPatchesCaseSensitive; status must be 0 exactly when the reference RFC 6902 evaluator succeeds and then the documents must be equal (objects as sets). patch_corrupt faults (type swaps, member deletion, number in 'from', non-array root, odd pointers) are judged for robustness only: no crash, well-formed document, balanced ledger. Distinct by (patch text, document text) for patches the reference accepts.",
              "(patch, document) pairs that the reference evaluator applies successfully",
-             [SIM_ALLOC, SIM_IN], probes=["patch_succeeded", "patch_failed_as_predicted", "patch_corrupt_survived"]),
+             [SIM_ALLOC, SIM_IN, SIM_BORROW], probes=["patch_succeeded", "patch_failed_as_predicted", "patch_corrupt_survived", "patch_built_through_constructors_with_lent_texts", "patch_move_target_exists_only_after_removal"]),
     "C17": P("asan", "exploration", (80000, 25), (2500000, 420),
              "pairs (from, to): independent documents or 'to' derived from 'from' by 1-6 edits, keys including / and ~; cJSONUtils_GeneratePatchesCaseSensitive must return an array of well-formed operations that, applied to a copy of 'from' by the library and to the model by the reference evaluator, yields 'to'; empty iff equal; both inputs must keep exactly their nodes (order free) and stay well-formed, and 3-15 follow-up edits on them are judged against the list/map model. Distinct by (patch text, from text) for non-empty patches.",
              "(generated patch, from-document) pairs with a non-empty patch",
-             [SIM_ALLOC, SIM_IN]),
+             [SIM_ALLOC, SIM_IN], probes=["generated_patch_applied_to_from_itself_then_again"]),
     "C18": P("asan", "exploration", (80000, 25), (2500000, 420),
              "(target, patch) pairs incl. non-object patches, null members at every depth, non-object targets and keys differing only in case: cJSONUtils_MergePatchCaseSensitive must equal the reference RFC 7396 merge (objects as sets) and leave the patch untouched; (from, to) pairs with 'to' free of null members: the generated merge patch applied by the library and by the reference must yield 'to' (NULL = no change); inputs keep their nodes and stay well-formed; follow-up edits are judged. Distinct by (target text, patch text) / (from text, to text).",
              "(target, patch) and (from, to) pairs with a non-trivial patch",
-             [SIM_ALLOC, SIM_IN], probes=["merge_null_member"]),
+             [SIM_ALLOC, SIM_IN], probes=["merge_null_member", "generated_merge_patch_applied_to_from_itself_then_again"]),
     "C19": P("asan", "exploration", (120000, 25), (4000000, 420),
              "objects of 0-40 members with duplicate, case-variant, empty and high-byte keys are sorted (both variants); the result must be the same nodes in non-decreasing key order, a second sort must keep it (with all-distinct keys: the very same order), the structural walk must pass (in particular first->prev == last), printing must equal a freshly built twin, and every following append/insert/detach/replace/delete is judged against the list/map model. Distinct by model-state hash.",
              "hash of the model state after a non-trivial step (sort of >= 3 members or a judged mutation of a sorted object)",
